@@ -309,3 +309,60 @@ Theorem C06_payment_booking_is_apply_payments :
       (forall x, pre (NodePaymentsGenProofs.abs_node chs ns') x = pre s' x).
 Proof. exact NodePaymentsGenProofs.gen_apply_payments_is_model. Qed.
 Print Assumptions C06_payment_booking_is_apply_payments.
+
+From VLS Require Gen.PaymentSummariesGen Proofs.PaymentSummariesGenProofs.
+
+(** The per-hash totals are the source's.  EnforcementState::summarize_payments (translated: a loop
+    over the HTLC slice with `entry(hash).and_modify(..).or_insert(value)` (value added to the entry), the addition in
+    the arithmetic of the build profile) never panics on a list whose values sum within u64 and returns
+    the map [summ l], which holds for every hash the total of the HTLCs of the list that carry it - the
+    [c_out] / [c_in] maps of the model's [content] (abs_h / abs_c below). *)
+Theorem C06_summarize_is_source :
+  forall (prof : profile) (l : list CommitmentPolicyGen.HTLCInfo2),
+    PaymentSummariesGenProofs.list_fits l = true ->
+    PaymentSummariesGen.gen_EnforcementState_summarize_payments prof l =
+      Val (Rust.OkR (PaymentSummariesGenProofs.summ l)) /\
+    (forall h, hget (PaymentSummariesGenProofs.summ l) h = PaymentSummariesGenProofs.total_of l h) /\
+    (forall h, In h (Rust.map_keys (PaymentSummariesGenProofs.summ l)) <->
+               In h (map CommitmentPolicyGen.HTLCInfo2_payment_hash l)).
+Proof.
+  intros prof l H. split; [apply PaymentSummariesGenProofs.gen_summarize_is_summ; exact H|].
+  split; [apply PaymentSummariesGenProofs.summ_total | apply PaymentSummariesGenProofs.summ_keys].
+Qed.
+Print Assumptions C06_summarize_is_source.
+
+(** The summaries are the source's.  EnforcementState::incoming_payments_summary and ::payments_summary
+    (whole bodies, translated: `new.or(current.as_ref())`, `.map(|h| &h.received_htlcs)`,
+    `.map(|h| Self::summarize_payments(h)).unwrap_or_else(|| Map::new())`, `retain`, the consuming
+    `for (k, v) in counterparty_summary` with `entry(k).and_modify(..)[.or_insert(v)]` (the entry set to the min / max of itself and v)
+    and the `or_insert(0)` loops over the current commitments) never panic and return maps that hold
+    exactly the model's [in_val] / [out_val] on exactly the model's [in_keys] / [out_keys]; the hash set
+    NodeState::validate_payments / apply_payments build from them is the model's [sum_keys] - the premises
+    of C06_payment_check_is_validate_payments and C06_payment_booking_is_apply_payments.  For every order
+    [pord] in which the counterparty map is consumed (a hashbrown map: the order is unspecified), both
+    build profiles, and HTLC lists whose values sum within u64.  The model's [content] of a commitment is
+    [abs_h] (holder: offered = outgoing) / [abs_c] (counterparty: received = outgoing) of the source's
+    CommitmentInfo2. *)
+Theorem C06_summaries_are_source :
+  forall (prof : profile) (pord : list (N * N) -> list (N * N))
+         (ge : PaymentSummariesGen.EnforcementState)
+         (nht nct : option CommitmentPolicyGen.CommitmentInfo2),
+    (forall l, Permutation.Permutation (pord l) l) ->
+    PaymentSummariesGenProofs.info_fits nht = true ->
+    PaymentSummariesGenProofs.info_fits nct = true ->
+    PaymentSummariesGenProofs.info_fits (PaymentSummariesGen.EnforcementState_current_holder_commit_info ge) = true ->
+    PaymentSummariesGenProofs.info_fits (PaymentSummariesGen.EnforcementState_current_counterparty_commit_info ge) = true ->
+    let p := PaymentSummariesGenProofs.abs_pchan ge in
+    let nh := option_map PaymentSummariesGenProofs.abs_h nht in
+    let nc := option_map PaymentSummariesGenProofs.abs_c nct in
+    exists im om,
+      PaymentSummariesGen.gen_EnforcementState_incoming_payments_summary prof pord ge nht nct = Val (Rust.OkR im) /\
+      PaymentSummariesGen.gen_EnforcementState_payments_summary prof pord ge nht nct = Val (Rust.OkR om) /\
+      (forall h, hget im h = in_val p nh nc h) /\
+      (forall h, hget om h = out_val p nh nc h) /\
+      (forall h, In h (Rust.map_keys im) <-> In h (in_keys p nh nc)) /\
+      (forall h, In h (Rust.map_keys om) <-> In h (out_keys p nh nc)) /\
+      (forall h, In h (Rust.set_extend (Rust.set_extend [] (Rust.map_keys im)) (Rust.map_keys om)) <->
+                 In h (sum_keys p nh nc)).
+Proof. exact PaymentSummariesGenProofs.gen_summaries_are_model. Qed.
+Print Assumptions C06_summaries_are_source.
